@@ -58,7 +58,9 @@ def rule_menu():
     r4 = [(re.compile(r'a(b)'), r'\1\\x\1')]
     r5 = [(re.compile('\u00e9|%'), lambda m: '\\E' + str(len(m.group(0))))]
     defaults = le.get_builtin_uni2latex_dict()
+    r6 = [(re.compile(r'(?<=a)b'), 'Q'), (re.compile(r'^%'), 'P'), (re.compile(r'\bb'), 'W')]   # depend on the text to the LEFT
     return [
+        ('regex-left-context', lambda own: le.UnicodeToLatexConversionRule(le.RULE_REGEX, r6, replacement_latex_protection=own), ref.regex_matcher(r6)),
         ('dict-a-e', lambda own: le.UnicodeToLatexConversionRule(le.RULE_DICT, d1, replacement_latex_protection=own), ref.dict_matcher(d1)),
         ('dict-b', lambda own: le.UnicodeToLatexConversionRule(le.RULE_DICT, d2, replacement_latex_protection=own), ref.dict_matcher(d2)),
         ('regex-ab', lambda own: le.UnicodeToLatexConversionRule(le.RULE_REGEX, r3, replacement_latex_protection=own), ref.regex_matcher(r3)),
@@ -136,17 +138,20 @@ def make_encoder(rulespec, cfg, menu):
         else:
             rules.append(fac(own))
             refrules.append((matcher, own))
+    kw = {}
+    if not n:
+        kw['unknown_char_warning'] = False      # half of the configurations keep the default (warnings on)
     enc = le.UnicodeToLatexEncoder(conversion_rules=rules, replacement_latex_protection=p,
-                                   unknown_char_policy=u, non_ascii_only=n, unknown_char_warning=False)
+                                   unknown_char_policy=u, non_ascii_only=n, **kw)
     return enc, refrules
 
 
 def rule_lists_A():
-    nm = 8
+    nm = 9
     out = [()]
     for i in range(nm):
         for own in OWN3:
-            if i == 7 and own is not None:
+            if i == 8 and own is not None:
                 continue
             out.append(((i, own),))
             for j in range(nm):
@@ -155,7 +160,7 @@ def rule_lists_A():
 
 
 def rule_lists_B(maxlen):
-    variants = [(i, own) for i in range(8) for own in OWN3 if not (i == 7 and own is not None)]
+    variants = [(i, own) for i in range(9) for own in OWN3 if not (i == 8 and own is not None)]
     out = []
     for k in range(0, maxlen + 1):
         for combo in itertools.product(variants, repeat=k):
@@ -174,7 +179,7 @@ def plan(tier):
         shards=shards,
         bounds=dict(b, symbols=[repr(x) for x in SYMS], rule_kinds=[m[0] for m in rule_menu()], configs=len(CONFIGS),
                     lists_A=len(la), lists_B=len(lb)),
-        rule=('(A) every ordered list of <= 2 rules from an 8-entry menu (2 dicts, 3 regex rules incl. group expansion and callable replacement, '
+        rule=('(A) every ordered list of <= 2 rules from an 9-entry menu (2 dicts, 4 regex rules incl. group expansion, callable replacement and left-context patterns, '
               '2 callables consuming 1 / 2 characters, the built-in defaults; first rule with own protection in {None, none, braces-all}) x all 72 '
               'configurations (6 protections incl. callable x 6 unknown-character policies incl. callable x non_ascii_only) x all strings of length '
               '<= NA over 12 symbols (ASCII, %%, backslash, precomposed and combining accents, symbols with rules, control, unassigned, astral); '
